@@ -21,6 +21,7 @@ import (
 	"github.com/saucelabs/forwarder"
 	"github.com/saucelabs/forwarder/internal/martian"
 	"github.com/saucelabs/forwarder/verifharness/lib"
+	"github.com/saucelabs/forwarder/verifharness/wiring"
 )
 
 // countListener counts accepted connections and their closes; optionally delays the methods
@@ -240,6 +241,7 @@ func main() {
 	run.Floor("shutdown_nil_checked", int64(n/3))
 	run.Floor("drain_expiry_checked", int64(n/20))
 	run.Floor("forwarder_variant_runs", 3)
+	wiring.Run(run, "C11")
 	run.Finish()
 }
 
